@@ -188,6 +188,9 @@ fn fval(i: Option<usize>) -> (f64, f64) {
 }
 
 const NCMD_CASES: u64 = 48;
+/// the sound through the whole engine: host track x internal buffer size
+const ENGINE_CASES: u64 = 4 * 3;
+const ENGINE_HOSTS: [&str; 4] = ["main track", "sub-track", "nested sub-track", "spatial sub-track (flat: no attenuation, strength 0)"];
 
 impl C04 {
 	fn max_len(tier: Tier) -> usize {
@@ -217,7 +220,7 @@ impl Check for C04 {
 		Level::ModelChecking
 	}
 	fn num_cases(&self, tier: Tier) -> u64 {
-		Self::grid_cases(tier) + NCMD_CASES
+		Self::grid_cases(tier) + NCMD_CASES + ENGINE_CASES
 	}
 	fn describe(&self, tier: Tier, idx: u64) -> String {
 		let g = Self::grid_cases(tier);
@@ -227,6 +230,9 @@ impl Check for C04 {
 				"length {} reverse={} rate={} (device,sound) rate {:?}: every slice x every start x every valid loop region x chunk in {:?}",
 				len, reverse, rate, pair, CHUNKS
 			)
+		} else if idx >= g + NCMD_CASES {
+			let e = idx - g - NCMD_CASES;
+			format!("engine pass: index-coded static sound (forward / reverse / looping, rate 1 and 2) played on the {} with internal buffer {}, under 5 device-callback patterns whose sizes are not multiples of the internal buffer", ENGINE_HOSTS[(e % 4) as usize], [2usize, 4, 5][(e / 4) as usize])
 		} else {
 			format!("command family #{}: seek_to / seek_by / set_loop_region at every callback index", idx - g)
 		}
@@ -236,12 +242,14 @@ impl Check for C04 {
 		if idx < g {
 			let (len, reverse, rate, _) = Self::decode(tier, idx);
 			format!("len={} reverse={} rate={}", len, reverse, rate)
+		} else if idx >= g + NCMD_CASES {
+			format!("engine pass on the {}", ENGINE_HOSTS[((idx - g - NCMD_CASES) % 4) as usize])
 		} else {
 			"command family".into()
 		}
 	}
 	fn rule(&self) -> String {
-		"full product: length 0..=8 (10 thorough) x every slice 0<=s<=e<=len x every start 0..=slice_len x {no loop} + every loop a<b<=slice_len x reverse x rate in {1,-1,2,0.5,-0.5,0.25,1.5} x (device,sound) rate in {(1,1),(2,1),(1,2),(3,2)} x chunk in {1,2,3,5}; index-coded frames, poison outside the slice; ideal transport + Hermite reference. Command family: seek_to / seek_by / set_loop_region at every callback index 0..=6 (pairs of commands in thorough). states = distinct (visited index, fraction, loop, direction) of the reference transport; non-trivial = runs that produce non-silent audio".into()
+		"full product: length 0..=8 (10 thorough) x every slice 0<=s<=e<=len x every start 0..=slice_len x {no loop} + every loop a<b<=slice_len x reverse x rate in {1,-1,2,0.5,-0.5,0.25,1.5} x (device,sound) rate in {(1,1),(2,1),(1,2),(3,2)} x chunk in {1,2,3,5}; index-coded frames, poison outside the slice; ideal transport + Hermite reference. Command family: seek_to / seek_by / set_loop_region at every callback index 0..=6 (pairs of commands in thorough). Engine pass: the sound rendered through AudioManager + Renderer on 4 kinds of host track x internal buffer {2,4,5} x 5 callback patterns x {forward, reverse, loop} x rate {1,2}: the device output is the source frame sequence, bit-exactly. states = distinct (visited index, fraction, loop, direction) of the reference transport; non-trivial = runs that produce non-silent audio".into()
 	}
 	fn assumptions(&self) -> Vec<String> {
 		vec![
@@ -256,6 +264,13 @@ impl Check for C04 {
 	}
 	fn run_case(&self, tier: Tier, idx: u64, ctx: &mut Ctx) {
 		let g = Self::grid_cases(tier);
+		if idx >= g + NCMD_CASES {
+			let e = idx - g - NCMD_CASES;
+			if let Err(p) = catch(|| engine_pass((e % 4) as usize, [2usize, 4, 5][(e / 4) as usize], ctx)) {
+				ctx.fail(format!("panic: {} :: engine pass", p), "");
+			}
+			return;
+		}
 		if idx >= g {
 			command_family(tier, idx - g, ctx);
 			return;
@@ -770,4 +785,104 @@ fn run_commands(sc: &Scene, at: usize, c1: Cmd, second: Option<(usize, Cmd)>, ct
 		}
 	}
 	ctx.outcome(hash64(&(format!("{:?}", c1), heard.last().copied())));
+}
+
+// ---------------------------------------------------------------------------------------------
+// engine pass: the same sample accuracy seen at the device output, wherever the sound is hosted and however
+// the device cuts time into callbacks
+
+fn engine_pass(host: usize, ibs: usize, ctx: &mut Ctx) {
+	use crate::rig;
+	use kira::track::{MainTrackBuilder, SpatialTrackBuilder, TrackBuilder};
+	const SRE: u32 = 8;
+	let patterns: [&[usize]; 5] = [&[1], &[3], &[7, 1, 2], &[ibs_plus(1)], &[4, 9, 5]];
+	fn ibs_plus(_: usize) -> usize {
+		6
+	}
+	// 15 frames: the index code (i+1)/16 stays below full scale (the renderer clamps at 1.0)
+	let n = 15usize;
+	let frames: Vec<Frame> = (0..n).map(code).collect();
+	for (pi, pat) in patterns.iter().enumerate() {
+		for variant in 0..6usize {
+			let (reverse, looped, rate) = [(false, false, 1.0), (true, false, 1.0), (false, true, 1.0), (false, false, 2.0), (true, true, 1.0), (false, true, 2.0)][variant];
+			ctx.evals += 1;
+			ctx.traces += 1;
+			let desc = || format!("{} frames, reverse={} loop(4..10)={} rate={} played on the {}; internal buffer {}, callbacks {:?} (cyclic), device rate = sound rate", n, reverse, looped, rate, ENGINE_HOSTS[host], ibs, pat);
+			let mut m = rig::manager(SRE, ibs, rig::caps(4), MainTrackBuilder::new());
+			let mut data = rig::static_data(SRE, frames.clone()).reverse(reverse).playback_rate(rate);
+			if looped {
+				data = data.loop_region(Region { start: PlaybackPosition::Samples(4), end: kira::sound::EndPosition::Custom(PlaybackPosition::Samples(10)) });
+			}
+			let mut keep: Vec<Box<dyn std::any::Any>> = vec![];
+			let played = match host {
+				0 => m.play(data).map(|_| ()),
+				1 => {
+					let mut t = m.add_sub_track(TrackBuilder::new()).expect("track");
+					let r = t.play(data).map(|_| ());
+					keep.push(Box::new(t));
+					r
+				}
+				2 => {
+					let mut t = m.add_sub_track(TrackBuilder::new()).expect("track");
+					let mut u = t.add_sub_track(TrackBuilder::new()).expect("nested");
+					let r = u.play(data).map(|_| ());
+					keep.push(Box::new(u));
+					keep.push(Box::new(t));
+					r
+				}
+				_ => {
+					let l = m.add_listener(glam::Vec3::ZERO, glam::Quat::IDENTITY).expect("listener");
+					let mut t = m.add_spatial_sub_track(&l, glam::Vec3::new(0.0, 0.0, -1.0), SpatialTrackBuilder::new().attenuation_function(None).spatialization_strength(0.0)).expect("spatial");
+					let r = t.play(data).map(|_| ());
+					keep.push(Box::new(t));
+					keep.push(Box::new(l));
+					r
+				}
+			};
+			if played.is_err() {
+				ctx.fail("engine pass: play failed", desc());
+				continue;
+			}
+			let mut out: Vec<(f32, f32)> = vec![];
+			let mut k = 0;
+			while out.len() < 40 {
+				let rep = rig::render_stereo(&mut m, pat[k % pat.len()], &mut out);
+				k += 1;
+				ctx.transitions += 1;
+				if !rep.ok() {
+					ctx.fail("engine pass: callback monitor", format!("{} {:?}", desc(), rep));
+					break;
+				}
+			}
+			// reference: the ideal transport at integer steps (rate 1 or 2 at equal rates: every output frame is a source frame)
+			let mut tm = TransportModel { pos: if reverse { n - 1 } else { 0 }, playing: true, lp: if looped { Some((4, 10)) } else { None }, n };
+			let mut want: Vec<Option<usize>> = vec![];
+			for _ in 0..40 {
+				want.push(tm.cur());
+				for _ in 0..rate as usize {
+					if reverse {
+						tm.bwd();
+					} else {
+						tm.fwd();
+					}
+				}
+			}
+			for (i, w) in want.iter().enumerate() {
+				let Some(got) = out.get(i) else { break };
+				let exp = w.map(code).unwrap_or(Frame::ZERO);
+				let tol = if host == 3 { 1e-6 } else { 0.0 };
+				if (got.0 - exp.left).abs() > tol || (got.1 - exp.right).abs() > tol {
+					ctx.fail(
+						format!("the device output is not the source frame sequence :: engine pass on the {}", ENGINE_HOSTS[host]),
+						format!("{}; output frame {}: got ({}, {}), expected source frame {:?} = ({}, {})", desc(), i, got.0, got.1, w, exp.left, exp.right),
+					);
+					break;
+				}
+			}
+			ctx.nontrivial_extra += 1;
+			ctx.state(hash64(&("engine", host, ibs, pi, variant)));
+			drop(keep);
+		}
+	}
+	ctx.outcome(hash64(&("engine", host, ibs)));
 }
